@@ -8,8 +8,8 @@ CONFIGS = ['prod']
 EXPLANATION = (
     'Decided clauses: M1 (contradiction rule) in the node\'s membership watcher, nodes in difference(previous, current) are by '
     'construction absent from the current snapshot, so the entry pushed to `left` must be looked up in state carried over from the previous '
-    'iteration, never in the current snapshot (and symmetrically `joined` in the current one); the carried state is refreshed on every '
-    'iteration; M2 a delta type (joined/left lists) must not travel on a latest-value-only channel (tokio watch), on which a slow or late '
+    'iteration, never in the current snapshot (and symmetrically `joined` in the current one); the carried set is replaced only after both differences were '
+    'computed and the change published, and the carried snapshot is refreshed together with it; M2 a delta type (joined/left lists) must not travel on a latest-value-only channel (tokio watch), on which a slow or late '
     'subscriber loses intermediate deltas; M3 the two consumers apply `left` only to removals and `joined` only to insertions of their '
     'live-member maps, on every path of the membership arm, and the forwarder hands every event to both consumers. '
     'NOT decided: chitchat\'s own failure detection; timing.')
